@@ -7,6 +7,7 @@ from .locks import Held, lock_sites
 from .proto import ACTIVE_QUEUE
 from .rule import ok, bad, undecided
 from .rules_locks import cg
+from .ordq import edom
 from .rules_proto import events_of, SYNC, SYNC_NP, TRY_SYNC, POLL
 
 SCHED_JOB_DESYNC = 'desync::scheduler::desync_scheduler::Scheduler::schedule_job_desync'
@@ -138,7 +139,7 @@ def aq_drop(ctx):
         out.append(undecided('AQ-drop', 'panicking-edge', 'shape not recognised (no thread::panicking() test or no marking closure)', fn=fn.name))
     else:
         dom = fn.dominators()
-        if all(pan_true in dom.get(b, set()) for b in mark_blocks):
+        if all(edom(fn, pan_true, b) for b in mark_blocks):
             out.append(ok('AQ-drop', 'panicking-edge', 'the queue is marked only when thread::panicking()', fn=fn.name))
         else:
             out.append(bad('AQ-drop', 'panicking-edge', 'ActiveQueue::drop marks the queue Panicked on a path where the thread is not panicking', fn=fn.name))
@@ -196,7 +197,7 @@ def c15_refuse(ctx):
         sync_calls = [bb for bb, t in fn.calls() if (t['func'].get('fn') or '') in ('desync::scheduler::desync_scheduler::sync', SYNC)]
         if pan_true is None or not np_calls or not sync_calls:
             out.append(bad('ORD-C15-refuse', 'Desync::drop', 'Desync::drop no longer chooses between sync and sync_no_panic on thread::panicking()', fn=fn.name))
-        elif all(pan_true in dom.get(b, set()) for b in np_calls) and all(pan_false in dom.get(b, set()) for b in sync_calls):
+        elif all(edom(fn, pan_true, b) for b in np_calls) and all(edom(fn, pan_false, b) for b in sync_calls):
             out.append(ok('ORD-C15-refuse', 'Desync::drop', 'sync_no_panic on the panicking edge, sync otherwise', fn=fn.name))
         else:
             out.append(bad('ORD-C15-refuse', 'Desync::drop', 'the panicking edge of Desync::drop can reach the panicking variant of sync (double panic aborts the process)', fn=fn.name))
